@@ -5,11 +5,13 @@ From Playback Require Import Properties.C17.
 
 Inductive case17 :=
 | H (c : RunRec.case)
-| S3 (ratio : option Q) (draw : Q) (impl_kept : bool).
+| S3 (ratio : option Q) (draw : Q) (impl_kept : bool)
+| S3H (saves : list (option Q * Q * bool)).   (* per save of a history of S3 cassettes: ratio, tapped draw, stored *)
 Definition case := case17.
 
 Definition check_case (c : case) : bool :=
   match c with
   | H hc => check_with (fun m i => eq_cass_kinds m i && eq_state m i) hc
   | S3 r d k => Bool.eqb (s3_should_sample r d) k
+  | S3H l => forallb (fun x => Bool.eqb (s3_should_sample (fst (fst x)) (snd (fst x))) (snd x)) l
   end.
